@@ -244,7 +244,46 @@ type info struct {
 	swaps    int
 }
 
+// operands (and results) of earlier calls stay alive for a while and are re-read after later calls: nothing a later
+// call does may change them
+type kept struct {
+	m          gf2p16.Matrix
+	rows, cols int
+	want       []uint16
+	what       string
+}
+
+var earlier []kept
+
+func keep(m gf2p16.Matrix, rows, cols int, want []uint16, what string) {
+	if rows*cols > 4096 {
+		return
+	}
+	earlier = append(earlier, kept{m, rows, cols, append([]uint16{}, want...), what})
+	if len(earlier) > 24 {
+		earlier = earlier[len(earlier)-24:]
+	}
+}
+
+func earlierIntact() string {
+	for _, k := range earlier {
+		if !eq(readBack(k.m, k.rows, k.cols), k.want) {
+			earlier = nil
+			return fmt.Sprintf("a %dx%d matrix that was %s of an earlier call changed during a later, unrelated call", k.rows, k.cols, k.what)
+		}
+	}
+	return ""
+}
+
 func check(c Case) (string, info) {
+	msg, inf := check1(c)
+	if msg == "" {
+		msg = earlierIntact()
+	}
+	return msg, inf
+}
+
+func check1(c Case) (string, info) {
 	n := c.N
 	elems, constr := build(c)
 	rank, swaps := gf16.FRank(n, n, elems)
@@ -357,6 +396,8 @@ func check(c Case) (string, info) {
 	if !eq(readBack(M, n, n), elems) || !eq(readBack(N, n, rhs), nE) {
 		return "RowReduceForInverse modified an operand", inf
 	}
+	keep(M, n, n, elems, "the left operand")
+	keep(N, n, rhs, nE, "the right operand of RowReduceForInverse")
 	if singular != (err != nil) {
 		return fmt.Sprintf("RowReduceForInverse: singular=%v but err=%v", singular, err), inf
 	}
@@ -488,6 +529,36 @@ func TestCheck(t *testing.T) {
 				}
 				rec.Class("rhs-wider-than-256-columns")
 				do(Case{Family: f, N: n, RHS: w, Seed: uint64(n*100000 + w*8), Param: idx % n}) // the right-hand side shape (random, (N|I), I, (I|N), zero) varies with the width
+			}
+		}
+	}
+	// consecutive products whose right operands have the same number of elements but different shapes
+	if cfg.Mine(idx + 1) {
+		shapes := [][2]int{{4, 9}, {6, 6}, {9, 4}, {3, 12}, {12, 3}, {2, 18}, {36, 1}, {1, 36}, {6, 6}, {18, 2}}
+		for rep := 0; rep < 3; rep++ {
+			for si, sh := range shapes {
+				rec.Eval()
+				rec.Class("times-same-element-count-different-shape")
+				k, cc := sh[0], sh[1]
+				r := 2 + (si+rep)%4
+				sd := uint64(si*31+rep)*7919 + 11
+				a, b := make([]uint16, r*k), make([]uint16, k*cc)
+				for i := range a {
+					a[i] = rnd16(&sd)
+				}
+				for i := range b {
+					b[i] = rnd16(&sd)
+				}
+				var got []uint16
+				if p, msg := run.Safe(func() {
+					got = readBack(gf2p16.NewMatrixFromSlice(r, k, toT(a)).Times(gf2p16.NewMatrixFromSlice(k, cc, toT(b))), r, cc)
+				}); p {
+					rec.Fail("times", Case{Family: "shapes", N: si, Param: rep}, "", fmt.Sprintf("(%dx%d).Times(%dx%d) panicked after products with other shapes of the same element count: %s", r, k, k, cc, msg))
+					break
+				} else if !eq(got, gf16.FMatMul(r, k, cc, a, b)) {
+					rec.Fail("times", Case{Family: "shapes", N: si, Param: rep}, "", fmt.Sprintf("(%dx%d).Times(%dx%d) differs from the reference product after products with other shapes of the same element count", r, k, k, cc))
+					break
+				}
 			}
 		}
 	}
